@@ -10,6 +10,11 @@ NOTE_COMMON = ("Trusted: Lean 4.33 kernel with axioms propext/Classical.choice/Q
                "rounding modes; third-party libraries, Rust std, cffi, md5, OS are trusted. ")
 
 CLAIMED = {
+    "C20": dict(
+        text="PARTIAL by nature. Lean theorems about the one hand-written binary reader that takes sizes from the file (Nodegraph::from_reader): it is a total function of the input, the memory it requests is bounded by the input length whatever the size fields say (alloc_bounded, for the allocation discipline the translator re-reads from the source on every run; the pre-repair pre-allocating discipline is proved unbounded), and it refuses zero-sized tables. Every mutated nodegraph file is also run through the reader model and compared with the real reader. Everything else (JSON/gzip/zip/sqlite/CSV decoders, native memory safety) is differential TESTING in crash-isolated workers (address-space limit, per-file timeout, post-failure sentinel computation) over mutated files of all 11 kinds; labelled as testing in the evidence.",
+        note=NOTE_COMMON + "Memory safety of native code, third-party decoders and the allocator cannot be expressed in an executable model and are not claimed; a signal, timeout or damaged process state found by the isolated workers is reported with the file bytes as replay.",
+        technique="Lean 4 proof of allocation bound / totality of the size-taking reader (translator-selected variant) + crash-isolated differential loading of mutated files",
+        ref="DESIGN.md section 5 C20"),
     "C15": dict(
         text="PARTIAL by nature. Lean theorems over an ownership model (heap of sketch cells, handles, frozen flags; for each API entry point whether it writes its receiver and whether its result is fresh or an alias): frame rule (only a mutator's receiver cell can change), frozen objects refuse every mutator and keep their content through EVERY history (frozen_forever), to_mutable always yields a fresh cell so a mutable copy shares no state, and the only aliases ever handed out are frozen cells or flatten() of a flat sketch. The alias table itself is checked against the real objects after every op of every generated history (content of all live objects, frozen flags, Python object identity); read-only calls (comparisons, search, prefetch, gather, compare, save/load, manifest export) are executed twice and their operands digested before and after.",
         note=NOTE_COMMON + "The theorem is relative to the transcribed alias/clone table; CPython/cffi object lifetime and aliasing inside native code are observed by the monitor, not proved.",
@@ -43,7 +48,7 @@ def main():
             "evidence_file": f"evidence/{pid}.json",
             "replay_cmd_template": f"./check {pid} --replay {{path}}",
             "engine": "lean4-model+correspondence",
-            "level_claimed": {"category": "proof", "text": c["text"], "design_ref": c["ref"]},
+            "level_claimed": {"category": c.get("category", "proof"), "text": c["text"], "design_ref": c["ref"]},
             "level_note": c["note"],
             "technique": c["technique"],
         })
